@@ -218,12 +218,31 @@ def run(prog, R):
         # the closure binds Type::Gate(n_cl, n_qu) in that order
         cl = prog.body("oq3_semantics::symbols::SymbolTable::standard_library_gates::{closure#0}::{closure#0}")
         if cl:
-            ok = False
+            ok, nbnd = True, 0
             for p in SymExec(prog, cl).paths():
                 for c in p.calls:
                     if c[0].endswith("SymbolTable::new_binding"):
-                        ok = "Type::Gate" in show(deep_strip(c[1][2]))
-            R.ob("C09.4-stdgates", "bound as Type::Gate(n_cl, n_qu)", ok, cl.at, "")
+                        nbnd += 1
+                        ty_ = deep_strip(c[1][2])
+                        # Type::Gate(<capture 1>, <capture 2>) of the closure environment
+                        ok = ok and ty_[0] == "adt" and ty_[1].endswith("Type::Gate") and [deep_strip(x) for x in ty_[2]] == [("field", ("arg", 1, None), 1), ("field", ("arg", 1, None), 2)]
+            # the two captures are the arity array's elements 0 (classical parameters) and 1 (qubits), in that order
+            oc = prog.body("oq3_semantics::symbols::SymbolTable::standard_library_gates::{closure#0}")
+            cap = []
+            if oc:
+                defs_ = {}
+                for bi_, si_, st_ in oc.stmts_with_pos():
+                    if st_["k"] == "assign" and not st_["lhs"]["p"]:
+                        defs_.setdefault(st_["lhs"]["l"], []).append(st_["rv"])
+                for bi_, si_, st_ in oc.stmts_with_pos():
+                    if st_["k"] == "assign" and st_["rv"]["k"] == "agg" and (st_["rv"].get("closure") or "").endswith("{closure#0}::{closure#0}"):
+                        for f_ in st_["rv"]["fields"][1:3]:
+                            rv_ = (defs_.get(f_["pl"]["l"]) or [{}])[0]
+                            src_ = rv_.get("pl", {}).get("l") if rv_.get("k") == "ref" else None
+                            rv2 = (defs_.get(src_) or [{}])[0] if src_ is not None else {}
+                            idx_ = [p_[1] for p_ in rv2.get("op", {}).get("pl", {}).get("p", []) if p_[0] == "cindex"] if rv2.get("k") == "use" else []
+                            cap.append(idx_[0] if idx_ else None)
+            R.ob("C09.4-stdgates", "bound as Type::Gate(n_cl, n_qu)", ok and nbnd >= 1 and cap == [0, 1], cl.at, f"{nbnd} binding call(s); Type::Gate(capture 1, capture 2) with captures = arity array elements {cap}")
         # every gate of the table is bound whenever the function is called: one unconditional path through the
         # flat_map/filter chain (no early return that skips the library), and the filter closure binds on every path
         psg = [p for p in SymExec(prog, sg).paths() if "__diverged__" not in p.env]
